@@ -261,6 +261,10 @@ func T4(rc *RC) {
 				}
 			}
 		}
+		// or through the order dispatcher of the access pattern (whose own selection is checked below)
+		if strings.Contains(txt, "$r.AP.calcStrides()") || strings.Contains(txt, "$r.calcStrides()") {
+			okMap = true
+		}
 		if !okMap {
 			bad = append(bad, "expected strides are not chosen by data order (IsColMajor -> CalcStridesColMajor, else CalcStrides)")
 		}
